@@ -63,6 +63,13 @@ def gen_case(rnd):
         return mk_case({"t": outer}, q, mode="seq", tag="from-selector", consts={"min": rnd.choice([1, 2, 3]), "tag": "T"},
                        vars={"min": rnd.choice([2, 3])})
     q = gen_query(rnd, "m")
+    if rnd.random() < 0.15:
+        # an index selector in front of an array that is itself nested: it selects / flattens ONE level, the levels below it
+        # stay a multi-dimensional source
+        cube = gen_nested(rnd, 3)
+        q[4] = tablesel(rnd.choice(["cube[each]", "cube[(0:end)]", "cube[0]", "cube[(0:1)]", "cube[keep=>each]", "cube[each:each]"]))
+        return mk_case({"cube": cube}, q, mode="seq", tag="from-index-selector", consts={"min": rnd.choice([1, 2, 3]), "tag": "T"},
+                       vars={"min": rnd.choice([2, 3])})
     c = mk_case({"m": data}, q, mode="seq", tag="depth%d" % depth, consts={"min": rnd.choice([1, 2, 3]), "tag": "T"},
                 vars={"min": rnd.choice([2, 3])})
     return c
